@@ -153,6 +153,29 @@ Section Contract.
     destruct (Nat.eq_dec n fuel) as [->|Hne]; [auto|].
     destruct Hstop as [_ Hs]; [lia|]. discriminate.
   Qed.
+  (* ---------------- a NaN training loss is an abort, not a way of stopping early ---------------- *)
+  (* a mini-batch in which some sample's loss is NaN panics: no step is taken and nothing is returned; a
+     mini-batch that returns has seen no NaN loss *)
+  Lemma run_batch_nan_aborts epoch (s : S) (group : list X) rs :
+    sequence (pmap (sample s) group) = Ok rs ->
+    existsb (fun r => nisnan N (snd r)) rs = true ->
+    exists c, run_batch N pmap sample gadd step epoch s group = Panic c.
+  Proof.
+    intros Hs Hn. unfold run_batch. rewrite Hs. cbn [bind].
+    assert (E : forallb (fun r : G * T => negb (nisnan N (snd r))) rs = false).
+    { clear Hs. induction rs as [|r rs IH]; [discriminate|]. cbn [existsb forallb] in *.
+      destruct (nisnan N (snd r)); [reflexivity|]. cbn [orb negb andb] in *. apply IH. exact Hn. }
+    rewrite E. eexists. reflexivity.
+  Qed.
+
+  Lemma run_batch_ok_no_nan epoch (s s' : S) (group : list X) l :
+    run_batch N pmap sample gadd step epoch s group = Ok (s', l) ->
+    exists rs, sequence (pmap (sample s) group) = Ok rs /\
+               forallb (fun r => negb (nisnan N (snd r))) rs = true.
+  Proof.
+    unfold run_batch. destruct (sequence (pmap (sample s) group)) as [rs|]; [|discriminate]. cbn [bind].
+    destruct (forallb _ rs) eqn:E; [|discriminate]. intros _. exists rs. split; [reflexivity|exact E].
+  Qed.
 End Contract.
 
 (* ---------------- C04 ---------------- *)
